@@ -57,6 +57,7 @@ func (f *Frame) repeatCall(st *State, cl Val, pos token.Pos, label string) {
 	f.closedFacts(st, names)
 	if ms.alloc {
 		f.kindFacts(st, pre.alloc, ms)
+		vc.mineFacts(st)
 	}
 	for _, c := range l.cands {
 		vc.fact(Imp(c.enable, Imp(st.reach, c.eval(st, nil))))
